@@ -43,6 +43,15 @@ func (r *Run) c08Encode(t *tape.Tape, what string, enc func() ([]byte, error)) [
 		var b []byte
 		var err error
 		r.Lib(func() { b, err = enc() })
+		// the application owns what an encoder returned and re-uses it as
+		// scratch space once it has sent the bytes: the next encoding of the
+		// same value (or of anything else) is not affected
+		kept := append([]byte(nil), b...)
+		scribble(b)
+		if cap(b) > len(b) {
+			scribble(b[len(b):cap(b)])
+		}
+		b = kept
 		if i == 0 {
 			first, firstErr = b, err
 			continue
